@@ -60,10 +60,6 @@ Qed.
 Lemma in_merge ls e : In e (merge_spec ls) <-> In e (concat ls).
 Proof. split; apply Permutation_in; [apply Permutation_sym|]; apply merge_spec_perm. Qed.
 
-(* every entry of the memtables and of the version *)
-Definition all_entries (ls : list (list entry)) (v : list (list file)) : list entry :=
-  concat ls ++ concat (map f_ents (concat v)).
-
 Lemma in_ver_parts lo hi v e : In e (concat (ver_parts lo hi v)) ->
   exists f, In f (concat v) /\ In e (f_ents f).
 Proof.
